@@ -44,11 +44,14 @@ pub fn gen_date(ctx: &Ctx) {
 
 pub fn run_cache(case: &str) -> String {
     crate::util::note_current(case);
-    let readings: Vec<i64> = case.split(',').map(|x| x.trim().parse().unwrap()).collect();
+    // an entry `f<secs>` is a call of get_date_from_secs(secs) (and `u` one of get_date_now_uncached at the current test clock) in between: neither may disturb the cache
+    let readings: Vec<String> = case.split(',').map(|x| x.trim().to_string()).collect();
     let h = std::thread::spawn(move || {
         let mut outs = Vec::new();
         for t in readings {
-            khttp::verif::set_test_clock(Some(t));
+            if let Some(f) = t.strip_prefix('f') { outs.push(hex(&khttp::date::get_date_from_secs(f.parse().unwrap()))); continue; }
+            if t == "u" { outs.push(hex(&khttp::date::get_date_now_uncached())); continue; }
+            khttp::verif::set_test_clock(Some(t.parse().unwrap()));
             let b = khttp::date::get_date_now();
             outs.push(hex(&b));
         }
@@ -65,7 +68,7 @@ pub fn gen_cache(ctx: &Ctx) {
     let mut rng = Rng::new(ctx.seed, "datecache");
     let mut out = Out::new(&ctx.dir, "datecache");
     out.rule = "histories of 1..12 clock readings in [0, 253402300799] seen by one fresh thread: monotone, repeated, \
-                backward and far-apart readings, half of them starting within 3 s of a day/hour/minute boundary; non-trivial = history contains both a repeated and a changed reading".into();
+                backward and far-apart readings, half of them starting within 3 s of a day/hour/minute boundary; one history in three interleaves get_date_from_secs / get_date_now_uncached calls; non-trivial = history contains both a repeated and a changed reading".into();
     let n = if ctx.thorough { 20000 } else { 2000 };
     for _ in 0..n {
         let len = rng.range(1, 12) as usize;
@@ -88,7 +91,15 @@ pub fn gen_cache(ctx: &Ctx) {
                 _ => { t = (t + rng.range(1, 100000) as i64).min(253_402_300_799); chg = true }
             }
         }
-        let c = rs.iter().map(|x| x.to_string()).collect::<Vec<_>>().join(",");
+        // one history in three interleaves get_date_from_secs / get_date_now_uncached calls (seed C18-j: from_secs wrote into the cache's buffer)
+        let mut items: Vec<String> = Vec::new();
+        let inter = rng.chance(1, 3);
+        for (i, x) in rs.iter().enumerate() {
+            items.push(x.to_string());
+            if inter && rng.chance(1, 2) { items.push(format!("f{}", match rng.below(3) { 0 => *x, 1 => rng.below(253_402_300_799) as i64, _ => rs[rng.below(i as u64 + 1) as usize] })); }
+            if inter && rng.chance(1, 5) { items.push("u".into()); }
+        }
+        let c = items.join(",");
         let r = run_cache(&c);
         out.emit(&c, &r, if rep && chg { "mixed" } else if rep { "repeat-only" } else { "change-only" }, rep && chg);
     }
